@@ -326,47 +326,58 @@ func checkC08(c *Ctx, r *Report) {
 			}
 			// net/http sends "User-Agent: Go-http-client/1.1" for a request that has no User-Agent unless the field is
 			// present with an empty value: the proxy must not introduce itself in the client's name
-			isPin := func(in ssa.Instruction) bool {
-				x, ok := in.(*ssa.Call)
-				if !ok || calleeName(x) != "(net/http.Header).Set" {
-					return false
-				}
-				a := callArgs(x)
-				name, isC := constString(a[1])
-				val, isV := constString(a[2])
-				return isC && name == "User-Agent" && isV && val == ""
-			}
-			isDo := func(in ssa.Instruction) bool { return in == call.(ssa.Instruction) }
-			// a test on the presence of User-Agent may bypass the pin on its "present" side: the side from which the
-			// pin cannot be reached any more
-			skipPresent := func(blk *ssa.BasicBlock, si int) bool {
-				iff, ok := blk.Instrs[len(blk.Instrs)-1].(*ssa.If)
-				if !ok {
-					return false
-				}
-				mentions := derivesFrom(iff.Cond, func(v ssa.Value) bool {
-					if k, ok := constString(v); ok && k == "User-Agent" {
-						return true
+			// The pin may sit in a same-package helper (suppressDefaultUserAgent(req.Header)): a call counts as the pin when
+			// every way through the helper passes one, except on the "User-Agent present" side of a presence test.
+			var uaPinned func(fn *ssa.Function, isEnd func(ssa.Instruction) bool, depth int) bool
+			uaPinned = func(fn *ssa.Function, isEnd func(ssa.Instruction) bool, depth int) bool {
+				isPin := func(in ssa.Instruction) bool {
+					x, ok := in.(*ssa.Call)
+					if !ok {
+						return false
 					}
-					if lk, ok := v.(*ssa.Lookup); ok { // _, sent := h["User-Agent"]
-						if k, ok := constString(lk.Index); ok && k == "User-Agent" {
+					if calleeName(x) == "(net/http.Header).Set" {
+						a := callArgs(x)
+						name, isC := constString(a[1])
+						val, isV := constString(a[2])
+						return isC && name == "User-Agent" && isV && val == ""
+					}
+					if h := helperBody(x); h != nil && depth < 2 {
+						return uaPinned(h, isReturn, depth+1)
+					}
+					return false
+				}
+				// a test on the presence of User-Agent may bypass the pin on its "present" side: the side from which the
+				// pin cannot be reached any more
+				skipPresent := func(blk *ssa.BasicBlock, si int) bool {
+					iff, ok := blk.Instrs[len(blk.Instrs)-1].(*ssa.If)
+					if !ok {
+						return false
+					}
+					mentions := derivesFrom(iff.Cond, func(v ssa.Value) bool {
+						if k, ok := constString(v); ok && k == "User-Agent" {
 							return true
 						}
+						if lk, ok := v.(*ssa.Lookup); ok { // _, sent := h["User-Agent"]
+							if k, ok := constString(lk.Index); ok && k == "User-Agent" {
+								return true
+							}
+						}
+						return false
+					})
+					if !mentions {
+						return false
 					}
-					return false
+					return len(walkFrom(pos{blk.Succs[si], 0}, isEnd, isPin, nil)) == 0
+				}
+				pinExists := false
+				eachInstr(fn, func(in ssa.Instruction) {
+					if isPin(in) {
+						pinExists = true
+					}
 				})
-				if !mentions {
-					return false
-				}
-				return len(walkFrom(pos{blk.Succs[si], 0}, isDo, isPin, nil)) == 0
+				return pinExists && len(walkFrom(pos{fn.Blocks[0], 0}, isPin, isEnd, skipPresent)) == 0
 			}
-			pinExists := false
-			eachInstr(f, func(in ssa.Instruction) {
-				if isPin(in) {
-					pinExists = true
-				}
-			})
-			noUA := pinExists && len(walkFrom(pos{f.Blocks[0], 0}, isPin, isDo, skipPresent)) == 0
+			noUA := uaPinned(f, func(in ssa.Instruction) bool { return in == call.(ssa.Instruction) }, 0)
 			r.Check(noUA, "C08.R6", "no default User-Agent is sent in the client's name", c.InstrPos(call), "an absent User-Agent is pinned to the empty value before Do (net/http then sends none)", "a request without a User-Agent leaves the proxy with \"User-Agent: Go-http-client/1.1\": the origin receives a header the client never sent")
 			r.Check(noGzip, "C08.R6", "the upstream transport does not add or undo gzip", c.InstrPos(call), "Transport.DisableCompression = true on the transport in use", "the upstream transport has transparent compression on: for a client that sent no Accept-Encoding it asks the origin for gzip, decodes the body and drops Content-Encoding / Content-Length — the delivered and stored body is not the one the origin's ETag and length describe")
 		})
@@ -767,23 +778,67 @@ func checkC10(c *Ctx, r *Report) {
 				continue
 			}
 			reqV := extractOf(read, 0)
+			isCopyName := func(n string) bool { return n == "io.Copy" || n == "io.CopyN" || n == "io.ReadAll" }
+			// the reading call inside a helper that drains its reader parameter on every path (discardRest(body))
+			helperCopy := func(h *ssa.Function, argIdx int) *ssa.Call {
+				if h == nil || argIdx >= len(h.Params) {
+					return nil
+				}
+				var ic *ssa.Call
+				eachInstr(h, func(in ssa.Instruction) {
+					x, ok := in.(*ssa.Call)
+					if !ok || ic != nil || !isCopyName(calleeName(x)) {
+						return
+					}
+					for _, a := range callArgs(x) {
+						if resolveVal(unconv(a)) == ssa.Value(h.Params[argIdx]) {
+							ic = x
+						}
+					}
+				})
+				if ic == nil {
+					return nil
+				}
+				if len(exitsFromEntryAvoiding(h, func(in ssa.Instruction) bool { return in == ssa.Instruction(ic) }, nil)) > 0 {
+					return nil
+				}
+				return ic
+			}
+			isReqBody := func(a ssa.Value) bool {
+				if _, pth := fieldPath(unconv(a)); len(pth) > 0 && pth[len(pth)-1] == "Body" {
+					return derivesFrom(a, func(v ssa.Value) bool { return reqV != nil && v == ssa.Value(reqV) })
+				}
+				return false
+			}
+			drainHelper := func(x *ssa.Call) (*ssa.Function, *ssa.Call) {
+				h := helperBody(x)
+				if h == nil {
+					return nil, nil
+				}
+				for i, a := range callArgs(x) {
+					if isReqBody(a) {
+						if ic := helperCopy(h, i); ic != nil {
+							return h, ic
+						}
+					}
+				}
+				return nil, nil
+			}
 			isDrain := func(in ssa.Instruction) bool {
 				x, ok := in.(*ssa.Call)
 				if !ok {
 					return false
 				}
-				n := calleeName(x)
-				if n != "io.Copy" && n != "io.CopyN" && n != "io.ReadAll" {
-					return false
-				}
-				for _, a := range callArgs(x) {
-					if _, pth := fieldPath(unconv(a)); len(pth) > 0 && pth[len(pth)-1] == "Body" {
-						if derivesFrom(a, func(v ssa.Value) bool { return reqV != nil && v == ssa.Value(reqV) }) {
+				if isCopyName(calleeName(x)) {
+					for _, a := range callArgs(x) {
+						if isReqBody(a) {
 							return true
 						}
 					}
+					return false
 				}
-				return false
+				h, _ := drainHelper(x)
+				return h != nil
 			}
 			// (a) every way from the exchange back to ReadRequest passes the drain
 			p0 := posOf(handle)
@@ -799,12 +854,19 @@ func checkC10(c *Ctx, r *Report) {
 					return
 				}
 				dcall := in.(*ssa.Call)
-				var derr ssa.Value
-				if tup, isT := dcall.Type().(*types.Tuple); isT {
-					if ex := extractOf(dcall, tup.Len()-1); ex != nil {
-						derr = ex
+				errOf := func(call *ssa.Call) ssa.Value {
+					if tup, isT := call.Type().(*types.Tuple); isT {
+						if ex := extractOf(call, tup.Len()-1); ex != nil {
+							return ex
+						}
+						return nil
 					}
+					if call.Type().String() == "error" {
+						return call
+					}
+					return nil
 				}
+				derr := errOf(dcall)
 				if derr == nil {
 					return // the error of the drain is ignored: nothing can end the tunnel on it
 				}
@@ -839,22 +901,43 @@ func checkC10(c *Ctx, r *Report) {
 					}
 					return false, false
 				}
-				nn := pruneNil(g, derr, false)
-				assume := func(b *ssa.BasicBlock, si int) bool {
-					if nn(b, si) {
-						return true
-					}
-					if ifi, ok := b.Instrs[len(b.Instrs)-1].(*ssa.If); ok {
-						if neg, is := isClosedTest(ifi.Cond); is {
-							// keep only the edge on which "err is ErrBodyReadAfterClose" holds
-							trueEdge := 0
-							if neg {
-								trueEdge = 1
+				// edges compatible with "the read failed with http.ErrBodyReadAfterClose" in function fn, for the error value e
+				assumeClosed := func(fn *ssa.Function, e ssa.Value) edgeFilter {
+					nn := pruneNil(fn, e, false)
+					return func(b *ssa.BasicBlock, si int) bool {
+						if nn(b, si) {
+							return true
+						}
+						if ifi, ok := b.Instrs[len(b.Instrs)-1].(*ssa.If); ok {
+							if neg, is := isClosedTest(ifi.Cond); is {
+								trueEdge := 0
+								if neg {
+									trueEdge = 1
+								}
+								return si != trueEdge
 							}
-							return si != trueEdge
+						}
+						return false
+					}
+				}
+				assume := assumeClosed(g, derr)
+				if h, ic := drainHelper(dcall); h != nil {
+					// the classification may sit in the helper: if, under the assumption, every return of the helper hands
+					// back a nil error, the caller sees "no error"
+					if ie := errOf(ic); ie != nil {
+						pi := posOf(ic)
+						pi.i++
+						nilOnClosed := true
+						for _, e := range walkFrom(pi, nil, isReturn, assumeClosed(h, ie)) {
+							vals := retVals(e.(*ssa.Return))
+							if len(vals) == 0 || !isNilConst(vals[len(vals)-1]) {
+								nilOnClosed = false
+							}
+						}
+						if nilOnClosed {
+							assume = pruneNil(g, derr, true)
 						}
 					}
-					return false
 				}
 				pd := posOf(dcall)
 				pd.i++
@@ -879,7 +962,7 @@ func checkC10(c *Ctx, r *Report) {
 					if h == nil || h.Blocks == nil || originPkgPath(h) != "reservoir/proxy/responder" {
 						return
 					}
-					onResp, withReq := false, false
+					onResp, withReq := respV != nil && ssa.Value(x) == respV, false // the constructor itself may take the request
 					for _, a := range callArgs(x) {
 						if respV != nil && resolveVal(unconv(a)) == respV {
 							onResp = true
@@ -891,13 +974,15 @@ func checkC10(c *Ctx, r *Report) {
 					if !onResp || !withReq {
 						return
 					}
-					eachInstr(h, func(i2 ssa.Instruction) {
-						if st, ok := i2.(*ssa.Store); ok {
-							if fv, _, is := fieldOf(st.Addr); is && fv.Name() == "Request" {
-								told = true
+					for _, hh := range pkgGroup(li, h) {
+						eachInstr(hh, func(i2 ssa.Instruction) {
+							if st, ok := i2.(*ssa.Store); ok {
+								if fv, _, is := fieldOf(st.Addr); is && fv.Name() == "Request" {
+									told = true
+								}
 							}
-						}
-					})
+						})
+					}
 				})
 				r.Check(told, "C10.R7", fnKey(g)+": the exchange's responder knows the request method", c.InstrPos(handle), "a responder method that records the request (response.Request) is called with this exchange's request before handleHTTP", "the tunnel responder is not told which request it answers: an error answer (502, 416, 508 ...) to a HEAD request is written with its message as body, which the client does not read after HEAD and takes for the start of the next response")
 			}
